@@ -740,7 +740,7 @@ func checkInputNotifies(p *Prog, r *Report) {
 			brokenCheck("ANCHOR-UNRESOLVED role=func %s", sp.fn)
 		}
 		c := p.CFG(fi)
-		recv := p.recvVar(fi)
+		recv := p.selfVar(fi)
 		kcp := tFld(tVar(recv), fKcp)
 		sites := 0
 		for _, s := range p.CallsTo(sp.change) {
@@ -807,7 +807,7 @@ func checkBaton(p *Prog, r *Report) {
 	fi := p.FuncByName("(*UDPSession).Read")
 	c := p.CFG(fi)
 	chR := p.Field("UDPSession", "chReadEvent")
-	recv := p.recvVar(fi)
+	recv := p.selfVar(fi)
 	s := tVar(recv)
 	kcp := tFld(s, p.Field("UDPSession", "kcp"))
 	bufptr := tFld(s, p.Field("UDPSession", "bufptr"))
@@ -857,7 +857,7 @@ func checkBaton(p *Prog, r *Report) {
 			if hf == nil || hf.Decl == nil {
 				return true
 			}
-			hr := p.recvVar(hf)
+			hr := p.selfVar(hf)
 			if hr == nil {
 				return true
 			}
@@ -1124,7 +1124,7 @@ func checkAfterClose(p *Prog, r *Report, waits []*waitFunc) {
 		switch w.fi.Name {
 		case "(*UDPSession).Read":
 			// from function entry to the blocking select every path passes the two data tests
-			recv := p.recvVar(w.fi)
+			recv := p.selfVar(w.fi)
 			s := tVar(recv)
 			kcp := tFld(s, p.Field("UDPSession", "kcp"))
 			bufA := lt(tConst(0), mk("len", tFld(s, p.Field("UDPSession", "bufptr")))).Key()
@@ -1330,6 +1330,24 @@ func checkReadErrorReporting(p *Prog, r *Report) {
 						return true
 					}})
 				construct := "failed socket read in " + fi.Name
+				// and the loop ends: no path from the failed read goes back to reading
+				again := c.FindPath(PathQuery{From: Point{b.Succs[0], 0}, IsTarget: func(nd ast.Node, _ Point) bool {
+					hit := false
+					inspectShallow(nd, func(x ast.Node) bool {
+						if call, ok := x.(*ast.CallExpr); ok {
+							if sel, ok := ast.Unparen(call.Fun).(*ast.SelectorExpr); ok && (sel.Sel.Name == "ReadFrom" || sel.Sel.Name == "ReadBatch") {
+								hit = true
+							}
+						}
+						return true
+					})
+					return hit
+				}})
+				if again.Found {
+					r.bad("C13.W9", fi.Name, p.Pos(b.Nodes[len(b.Nodes)-1]), construct+": loop ends", "after a failed socket read the loop can go on reading: on a transport whose error is permanent (a closed user-supplied PacketConn, for instance) the goroutine spins for ever, is never terminated by Close, and the error is never reported to blocked callers", c.DescribePath(again.Path))
+				} else {
+					r.ok("C13.W9", fi.Name, p.Pos(b.Nodes[len(b.Nodes)-1]), construct+": loop ends", "every path from err != nil leaves the loop")
+				}
 				if res.Found {
 					r.bad("C13.W9", fi.Name, p.Pos(b.Nodes[len(b.Nodes)-1]), construct, "a path leaves the receive loop after a failed read without notifyReadError: goroutines blocked in Read/Write/Accept on this socket (for a listener also the sessions it accepted) are never told that the socket is dead", c.DescribePath(res.Path))
 				} else {
@@ -1392,7 +1410,7 @@ func (p *Prog) callsNotifyingHelper(n ast.Node, recv *types.Var, ev *types.Var, 
 			return true
 		}
 		h := p.FuncOf(f)
-		if h == nil || h.Body == nil || p.recvVar(h) == nil {
+		if h == nil || h.Body == nil || p.selfVar(h) == nil {
 			return true
 		}
 		if p.helperAlwaysNotifies(h, ev, read, depth) {
@@ -1410,7 +1428,7 @@ func (p *Prog) helperAlwaysNotifies(h *FuncInfo, ev *types.Var, read bool, depth
 	}
 	p.memo[key] = false
 	c := p.CFG(h)
-	hrecv := p.recvVar(h)
+	hrecv := p.selfVar(h)
 	kcp := tFld(tVar(hrecv), p.Field("UDPSession", "kcp"))
 	var want *Term
 	if read {
@@ -1492,8 +1510,8 @@ func checkWriteErrorReporting(p *Prog, r *Report) {
 	n := 0
 	var returning []*FuncInfo // transmit functions that hand the error to their caller instead
 	for _, fi := range p.funcs {
-		if fi.Lit != nil || fi.Body == nil || fi.Obj == nil || recvTypeName(fi.Obj) != "UDPSession" {
-			continue
+		if fi.Lit != nil || fi.Body == nil || fi.Obj == nil {
+			continue // any package function or method that writes to the socket (a method of the session, or a plain function taking it)
 		}
 		c := p.CFG(fi)
 		var errVars []*types.Var
